@@ -68,12 +68,19 @@ func (t *T) Cleanup(f func()) {
 // Finish runs the registered cleanups last-in-first-out, as the real runner
 // does when a test execution ends.
 func (t *T) Finish() {
-	t.mu.Lock()
-	cs := t.cleanups
-	t.cleanups = nil
-	t.mu.Unlock()
-	for i := len(cs) - 1; i >= 0; i-- {
-		cs[i]()
+	// as testing.T does: last registered first, and a cleanup registered while the cleanups
+	// run (a Match* call made from a cleanup callback registers one) runs next
+	for {
+		t.mu.Lock()
+		n := len(t.cleanups)
+		if n == 0 {
+			t.mu.Unlock()
+			return
+		}
+		f := t.cleanups[n-1]
+		t.cleanups = t.cleanups[:n-1]
+		t.mu.Unlock()
+		f()
 	}
 }
 
